@@ -1309,6 +1309,10 @@ def suite(name, seed, tier):
                                   lambda: gen_churn(rnd, plan, info, fs, heap_for(plan, rnd, True), 1500 if not thorough else 6000, w),
                                   lambda: gen_immortal(rnd, plan, info, fs, heap_for(plan, rnd), w),
                                   lambda: gen_destroy(rnd, plan, info, fs, heap_for(plan, rnd, True), w, 10 if not thorough else 40)]
+                        if plan in ("Immix", "GenImmix", "StickyImmix", "ConcurrentImmix") and info["collects"]:
+                            # dense-lines (shared with C07): full Immix blocks with per-line mixed liveness; appended LAST so
+                            # that the programs above keep their random streams
+                            mk.append(lambda: gen_dense_lines(rnd, plan, info, fs, 64 * MB, w, blocks=2))
                     elif name == "cycles":
                         if not info["collects"]:
                             continue
